@@ -1456,7 +1456,8 @@ type SSPseudoClass struct {
 
 func (a *SSPseudoClass) Equal(ss SS, check *CrossFileEqualityCheck) bool {
 	b, ok := ss.(*SSPseudoClass)
-	return ok && a.Name == b.Name && TokensEqual(a.Args, b.Args, check) && a.IsElement == b.IsElement
+	return ok && a.Name == b.Name && TokensEqual(a.Args, b.Args, check) && a.IsElement == b.IsElement &&
+		(a.Args == nil) == (b.Args == nil) // ":x" is not ":x()"
 }
 
 func (ss *SSPseudoClass) Hash() uint32 {
